@@ -18,6 +18,7 @@ CONSTANTS
   ApiClears = TRUE
   ApiNotifies = TRUE
   GraftNeedsStream = FALSE
+  ApiSkipsIfPresent = FALSE
 CONSTRAINT OneFlying
 VIEW GView
 INVARIANT Emit
